@@ -159,7 +159,7 @@ def blockRead (r : R) : (fuel : Nat) → R × Option Err
       let size := x % 2147483648
       let r := { r with bSize := x }
       -- legacy: no flag bit; blocks up to CompressBlockBound(8 MiB)
-      if isLegacy r ∧ x ≥ 2147483648 then (r, some .badBlockSize) else
+      if isLegacy r ∧ (x ≥ 2147483648 ∨ size = 0) then (r, some .badBlockSize) else
       let cap := if isLegacy r then Fast.bound Block8Mb else poolSize (blockSizeIndex r.flags)
       if size > cap then (r, some .badBlockSize) else
       let (s, d, e) := readFull r.src size
@@ -188,7 +188,7 @@ def uncompress (r : R) (dstLen : Nat) : R × Option (Array UInt8) × Option Err 
     (r, none, some .badBlockChecksum) else
   let out : Option (Array UInt8) :=
     if r.bSize ≥ 2147483648 then some (r.bData.extract 0 (min dstLen r.bData.size))
-    else uncompressBlock r.bData dstLen r.dict
+    else uncompressBlock r.bData dstLen (if isLegacy r then #[] else r.dict)   -- legacy blocks are independent
   match out with
   | none => (r, none, some .shortBuffer)
   | some dst =>
